@@ -143,6 +143,9 @@ def run_harness(meta, prop_id, keep=False):
         cur = b
     tmo = int(meta.get('timeout', 120))
     cb_cmd = ['cbmc', '--json-ui'] + meta.get('cbmc_flags', [])
+    if meta.get('sat'):
+        cb_cmd += ['--external-sat-solver', meta['sat']]
+    res['backend'] = 'cbmc 6.11.0 SAT (%s)' % (meta.get('sat') or 'minisat2')
     if meta.get('bounded') and meta['bounded'].get('unwind'):
         cb_cmd += ['--unwind', str(meta['bounded']['unwind']), '--unwinding-assertions']
     elif meta.get('unwind'):
@@ -361,7 +364,7 @@ def main():
                 else:
                     undecided.append((r['harness'], 'obligation %s fails but is not in the recorded baseline' % f['name']))
             else:
-                undecided.append((r['harness'], 'side obligation failed [%s] %s: %s' % (f['cls'], f['property'], f['description'])))
+                undecided.append((r['harness'], 'side obligation failed [%s] %s: %s' % (f['cls'], f['property'], (f['description'] or '')[:160])))
     # report
     for r in results:
         print('%-44s %-8s %4d/%-4d obligations  solver %.1fs%s%s' % (
@@ -369,7 +372,7 @@ def main():
             '  [bounded %s]' % json.dumps(r['bounded']) if r.get('bounded') else '',
             ('  ' + '; '.join(r['notes'])[:300]) if r['notes'] else ''))
         for f in r['failed'][:8]:
-            print('      FAILED [%s] %s  (%s)' % (f['cls'], f['name'], (f.get('description') or '')[:100]))
+            print('      FAILED [%s] %s  (%s)' % (f['cls'], f['name'][:120], (f.get('description') or '')[:100]))
     if args.show_trace:
         for r in results:
             for f in r['failed'][:4]:
@@ -462,7 +465,7 @@ def write_evidence(prop, tier, seed, results, metas_by, violations, undecided, k
                functions_verified_text=funcs,
                harnesses=[dict(name=r['harness'], status=r['status'], enforce=r.get('enforce'), replace=r.get('replace'), tu=r.get('tu'),
                                obligations=r['obligations'], discharged=r['discharged'], by_class=r.get('by_class'),
-                               named=r['named_ok'], solver_s=r['solver_s'], total_s=r['total_s'], backend='cbmc 6.11.0 SAT (minisat2)',
+                               named=r['named_ok'], solver_s=r['solver_s'], total_s=r['total_s'], backend=r.get('backend', 'cbmc 6.11.0 SAT (minisat2)'),
                                bounded=r.get('bounded'), notes=r['notes']) for r in results],
                bounded=[dict(harness=r['harness'], bound=r['bounded'], obligations=r['obligations'], discharged=r['discharged']) for r in bounded],
                solver_time_s=round(sum(r['solver_s'] for r in results), 2),
